@@ -10,6 +10,8 @@ mod c03;
 mod c04;
 mod c05;
 mod c06;
+mod c07;
+mod c13;
 mod c17;
 mod c18;
 mod c20;
@@ -41,6 +43,9 @@ fn main() {
     "C04" => c04::run(&mut sink, &mut rng, thorough),
     "C05" => c05::run(&mut sink, &mut rng, thorough),
     "C06" => c06::run(&mut sink, &mut rng, thorough),
+    "C07" => c07::run(&mut sink, &mut rng, thorough),
+    "C12" => c07::run_c12(&mut sink, &mut rng, thorough),
+    "C13" => c13::run(&mut sink, &mut rng, thorough),
     "C17" => c17::run(&mut sink, &mut rng, thorough),
     "C18" => c18::run(&mut sink, &mut rng, thorough),
     "C20" => c20::run(&mut sink, &mut rng, thorough),
